@@ -515,6 +515,65 @@ func vfC09FaultedHandshake(t *testing.T, res *vfResult, idx int) {
 	synctest.Wait()
 }
 
+// vfC09TransientSendFailure: the transport refuses single datagrams (a transient sendto error) in the middle of a
+// handshake whose flights span several datagrams; whatever the endpoint emits afterwards (an alert, a retransmission,
+// application data) must not reuse the number of a record that did leave in an earlier datagram of the failed call.
+func vfC09TransientSendFailure(t *testing.T, res *vfResult, idx int) {
+	r := vfRand("C09/sendfail", idx)
+	suites := vfAllSuites()
+	cfg := vfGenCompatCfg(r, suites[idx%len(suites)])
+	cfg.Store = false
+	if idx%3 == 0 {
+		cfg.CIDc, cfg.CIDs = 4, 4
+	}
+	cfg.MTU = []int{100, 150, 256, 400}[r.IntN(4)]
+	n := vfNewNet()
+	n.stormCap = 30000
+	co, so := cfg.Options(nil, nil)
+	p, err := vfNewPair(n, co, so)
+	res.Eval(1)
+	if err != nil {
+		res.Count("config_rejected", 1)
+
+		return
+	}
+	side := []*vfSide{p.C, p.S}[idx%2]
+	fails := map[int]error{}
+	for k := 0; k < 1+r.IntN(3); k++ {
+		fails[1+r.IntN(14)] = errors.New("sendto: no buffer space available")
+	}
+	side.EP.mu.Lock()
+	side.EP.wrFailAt = fails
+	side.EP.mu.Unlock()
+	cerr, serr := p.Handshake(5 * time.Minute)
+	if cerr == nil && serr == nil {
+		res.Count("sendfail_hs_completed", 1)
+		p.C.StartPump()
+		p.S.StartPump()
+		side.EP.mu.Lock()
+		side.EP.wrFailAt = map[int]error{side.EP.wrCalls + 1: errors.New("sendto: no buffer space available")}
+		side.EP.mu.Unlock()
+		for k := 0; k < 5; k++ {
+			_, _ = p.C.Conn.Write([]byte(fmt.Sprintf("c-%d-%d", idx, k)))
+			_, _ = p.S.Conn.Write([]byte(fmt.Sprintf("s-%d-%d", idx, k)))
+		}
+		time.Sleep(100 * time.Millisecond)
+	} else {
+		res.Count("sendfail_hs_failed", 1)
+	}
+	side.EP.mu.Lock()
+	res.Count("sendfail_datagrams_attempted", int64(side.EP.wrCalls))
+	side.EP.mu.Unlock()
+	res.NonTrivial(fmt.Sprintf("sendfail/%s/%s/%v", cfg.FP(), side.Name, fails))
+	layout := "plain"
+	if cfg.CIDc > 0 || cfg.CIDs > 0 {
+		layout = "cid"
+	}
+	vfNonceCheckPair(res, p, "transient-send-failure/"+layout, map[string]any{"scenario": "transient-send-failure", "cfg": cfg, "case": idx, "side": side.Name})
+	p.Close()
+	synctest.Wait()
+}
+
 // vfC09Overflow: the counter is preset close to 2^48; writes must fail rather than wrap.
 func vfC09Overflow(t *testing.T, res *vfResult, sn string) {
 	cfg := vfBaseCfg(vfSuiteByName(sn), "ecdsa")
@@ -854,6 +913,7 @@ func TestVF_C09(t *testing.T) {
 	// (2) faulted handshakes in virtual time
 	nhs := vfPick(600, 20000)
 	vfBubbles(t, nhs, func(t *testing.T, i int) { vfC09FaultedHandshake(t, res, i) })
+	vfBubbles(t, vfPick(120, 1200), func(t *testing.T, i int) { vfC09TransientSendFailure(t, res, i) })
 	// (3) overflow
 	ov := []string{"ECDSA-GCM128", "ECDSA-CBC", "ECDSA-CHACHA", "13-GCM128"}
 	vfBubbles(t, len(ov), func(t *testing.T, i int) { vfC09Overflow(t, res, ov[i]) })
